@@ -165,6 +165,93 @@ func checkC09(c *Ctx) {
 			}
 		})
 	}
+	// K5: no allocation is sized by a length field read from the wire before the buffer is known to hold that
+	// many bytes (the Lexer's CopyN/Consume check first and allocate nothing on failure; make(…, n) with n read
+	// from the input allocates up to 64 KiB per two input bytes)
+	// K6: no decoder formats a byte slice derived from its input into an error or log message (every nesting level
+	// would print its whole payload: a failing decode of a deeply nested datagram costs depth × size)
+	nMake, nFmt := 0, 0
+	for _, f := range funcs {
+		if inUio(f) {
+			continue
+		}
+		gc := newGuardCache(c)
+		allInstrs(f, func(in ssa.Instruction) {
+			switch x := in.(type) {
+			case *ssa.MakeSlice:
+				nMake++
+				src := wireLengthSource(x.Len, 0)
+				if src == nil {
+					return
+				}
+				// guarded by Has(n) / Len() >= n on the same value?
+				guarded := false
+				ns := c.Sx().Of(x.Len).String()
+				for _, ft := range gc.of(x.Block()) {
+					if strings.Contains(ft.str, "uio.Buffer).Has]") && strings.Contains(ft.str, c.Sx().Of(src).String()) && ft.pol {
+						guarded = true
+					}
+				}
+				if up := e.prover().upper(x.Len, e.prover().factsAt(x.Block()), 0); up <= 512 {
+					guarded = true // small constant bound (fixed-size records)
+				}
+				if !guarded {
+					r.Violation("C09-K5", shortName(f)+": allocation sized by an unvalidated wire length ("+shortDesc(x.Len, 3)+")", c.P.ipos(x),
+						"make(…, "+ns+") allocates what a length field of the input claims before the input is known to contain that many bytes: a few bytes of input make the decoder allocate tens of kilobytes each (memory amplification), e.g. an item length 0xffff repeated")
+				}
+			case *ssa.Call:
+				sf := x.Call.StaticCallee()
+				if sf == nil {
+					return
+				}
+				fk := funcKey(sf)
+				if fk != "fmt.Errorf" && fk != "fmt.Sprintf" && !strings.HasSuffix(fk, ".Printf") && fk != "fmt.Sprint" {
+					return
+				}
+				nFmt++
+				// variadic args: stores into the varargs array of boxed values
+				if len(x.Call.Args) == 0 {
+					return
+				}
+				sl, ok := x.Call.Args[len(x.Call.Args)-1].(*ssa.Slice)
+				if !ok {
+					return
+				}
+				al, ok := sl.X.(*ssa.Alloc)
+				if !ok {
+					return
+				}
+				for _, ref := range *al.Referrers() {
+					ia, ok := ref.(*ssa.IndexAddr)
+					if !ok {
+						continue
+					}
+					for _, r2 := range *ia.Referrers() {
+						st, ok := r2.(*ssa.Store)
+						if !ok {
+							continue
+						}
+						v := st.Val
+						if mi, ok := v.(*ssa.MakeInterface); ok {
+							v = mi.X
+						}
+						if !isByteSlice(v.Type()) {
+							if bt, ok := v.Type().Underlying().(*types.Slice); !ok || !isByteElem(bt) {
+								continue
+							}
+						}
+						if derivesFromInput(f, v, 0) {
+							r.Violation("C09-K6", shortName(f)+": formats input bytes into a message ("+shortDesc(v, 3)+")", c.P.ipos(x),
+								"a byte slice taken from the decoder's input is formatted by "+fk+": on a failing decode every nesting level prints its whole payload, so the cost grows with depth × size (and the message with it)")
+						}
+					}
+				}
+			}
+		})
+	}
+	r.Count("C09-K5-make-sites", nMake)
+	r.Count("C09-K6-format-sites", nFmt)
+	r.Expect("C09-K6-format-sites", 10)
 	r.Count("C09-K3-append-sites", nApp)
 	r.Expect("C09-K3-append-sites", 15)
 	r.Count("C09-K1-jump-sites", nJumps)
@@ -701,4 +788,69 @@ func collectionOf(c *Ctx, v ssa.Value) string {
 		break
 	}
 	return ""
+}
+
+func isByteElem(t *types.Slice) bool {
+	b, ok := t.Elem().Underlying().(*types.Basic)
+	return ok && (b.Kind() == types.Uint8 || b.Kind() == types.Byte)
+}
+
+// wireLengthSource: v derives (through conversions and arithmetic) from a Lexer ReadN call; returns that call
+func wireLengthSource(v ssa.Value, d int) ssa.Value {
+	if d > 6 || v == nil {
+		return nil
+	}
+	switch t := v.(type) {
+	case *ssa.Call:
+		if sf := t.Call.StaticCallee(); sf != nil && inUio(sf) && strings.HasPrefix(sf.Name(), "Read") && sf.Name() != "ReadAll" && sf.Name() != "ReadBytes" {
+			return t
+		}
+	case *ssa.Convert:
+		return wireLengthSource(t.X, d+1)
+	case *ssa.ChangeType:
+		return wireLengthSource(t.X, d+1)
+	case *ssa.BinOp:
+		if s := wireLengthSource(t.X, d+1); s != nil {
+			return s
+		}
+		return wireLengthSource(t.Y, d+1)
+	case *ssa.Phi:
+		for _, e := range t.Edges {
+			if s := wireLengthSource(e, d+1); s != nil {
+				return s
+			}
+		}
+	}
+	return nil
+}
+
+// derivesFromInput: v is (a slice of) a []byte parameter of f or the result of a Lexer read over it
+func derivesFromInput(f *ssa.Function, v ssa.Value, d int) bool {
+	if d > 6 || v == nil {
+		return false
+	}
+	switch t := v.(type) {
+	case *ssa.Parameter:
+		return isByteSlice(t.Type())
+	case *ssa.Slice:
+		return derivesFromInput(f, t.X, d+1)
+	case *ssa.ChangeType:
+		return derivesFromInput(f, t.X, d+1)
+	case *ssa.Convert:
+		return derivesFromInput(f, t.X, d+1)
+	case *ssa.Phi:
+		for _, e := range t.Edges {
+			if derivesFromInput(f, e, d+1) {
+				return true
+			}
+		}
+	case *ssa.Call:
+		if sf := t.Call.StaticCallee(); sf != nil && inUio(sf) {
+			switch sf.Name() {
+			case "Consume", "CopyN", "ReadAll", "Data":
+				return true
+			}
+		}
+	}
+	return false
 }
